@@ -78,8 +78,11 @@ def run_case(ctx, h, d, script, what):
         return impl, [], [{"kind": "crash", "what": what + ": harness exit %d" % rc, "script": lines[:600],
                            "impl": [l[:300] for l in impl[-12:]], "detail": err}]
     merged, _ = merge(script, impl)
-    if not ctx.driver_ok:
+    if not ctx.driver_ok and not os.path.exists(d):
         return impl, [], []
+    # ctx.driver_ok false but a driver binary exists: it is the last good build of the strict parser.
+    # Driver/C03.lean imports only the Wire model (no Props, no Leaf, no proofs), so a broken theorem
+    # never removes it; using it keeps the search for a concrete failing input alive.
     rc2, model, err2 = ctx.run_lines(d, merged, timeout=300)
     if rc2 != 0:
         return impl, model, [{"kind": "exact", "what": what + ": model driver exit %d" % rc2,
@@ -577,6 +580,118 @@ def gen_handshake(rng):
     return g.text(), {"handshake"}
 
 
+# ---------------------------------------------------------------- deterministic cases (every run)
+def t0_consts():
+    """constants of the code under test as regenerated by T0 (lean/VncModel/Gen/C03.lean)"""
+    d = {}
+    for l in open(os.path.join(common.LEAN, "VncModel", "Gen", "C03.lean")):
+        m = re.match(r"def (\w+) : Nat := (\w+)", l)
+        if m:
+            d[m.group(1)] = int(m.group(2), 0)
+    return d
+
+
+def det_tight_boundary(rng):
+    """Tight / TightPng with and without LastRect, update rectangles whose area is exactly
+    MIN_SPLIT_RECT_SIZE, one row/column less or more, and at TIGHT_MAX_RECT_SIZE / _WIDTH; contents
+    half solid / half noise so that the solid-area search of SendRectEncodingTight really splits"""
+    k = t0_consts()
+    ms, mx, mw = k["MIN_SPLIT_RECT_SIZE"], k["TIGHT_MAX_RECT_SIZE"], k["TIGHT_MAX_RECT_WIDTH"]
+    shapes = []
+    for w in (64, 128, 32, 16):
+        if ms % w == 0:
+            h = ms // w
+            shapes += [(w, h), (w, h - 1), (w, h + 1), (w - 1, h), (w + 1, h)]
+    shapes += [(mw, mx // mw), (mw, mx // mw + 1), (mw + 1, mx // mw), (mw - 1, mx // mw + 1),
+               (256, mx // 256), (256, mx // 256 + 1), (mw, 2), (mw + 1, 2), (ms, 1)]
+    out = []
+    for n, (w, h) in enumerate(shapes):
+        for enc in (TIGHT, TIGHTPNG):
+            for lr in (True, False):
+                if not lr and (n + (enc == TIGHT)) % 3:      # the LastRect side is the delicate one
+                    continue
+                g = Gen(rng)
+                g.screen(w + 8, h + 6, 4, maxrects=0)
+                i = g.connect(8)
+                encs = [enc] + ([LASTRECT] if lr else []) + ([QUALITY0 + 5] if n % 4 == 0 else [])
+                g.setenc(i, encs)
+                g.draw(0, 0, w + 8, h + 6, mode=3)
+                g.req(i, 0)
+                x, y = 3, 2
+                if n % 2 == 0 and w >= 4:        # left part solid, right part noise
+                    ws = (3 * w) // 4
+                    g.draw(x, y, ws, h, mode=0)
+                    g.draw(x + ws, y, w - ws, h, mode=3)
+                elif h >= 4:                     # top part solid, bottom part noise
+                    hs = (3 * h) // 4
+                    g.draw(x, y, w, hs, mode=0)
+                    g.draw(x, y + hs, w, h - hs, mode=3)
+                else:
+                    g.draw(x, y, w, h, mode=1)
+                g.op("fbur %d 0 %d %d %d %d" % (i, x, y, w, h))
+                g.op("fbur %d 1 0 0 %d %d" % (i, w + 8, h + 6))
+                out.append((g.text(), {"det-tight", "enc:" + ENC_NAME[enc]}, "det_tight_boundary"))
+    return out
+
+
+def det_dropcap(rng):
+    """for every capability flag: advertise -> use -> SetEncodings WITHOUT it -> provoke the situation in
+    which it would be used again (flags must be judged by the client's current list)"""
+    out = []
+    W, H = 64, 48
+    for cap in (COPYRECT, XCURSOR, RICHCURSOR, POINTERPOS, LASTRECT, NEWFBSIZE, EXTDESKTOPSIZE, LED,
+                SUPMSGS, SUPENCS, IDENTITY, XVP):
+        for variant in (0, 1):
+            g = Gen(rng)
+            g.conservative = True
+            g.screen(W, H, rng.choice([2, 4]), maxrects=rng.choice([0, 50]), xvp=1, utf8=1, ledhook=1,
+                     setds=rng.choice([0, 1]))
+            i = g.connect(8)
+            j = g.connect(rng.choice([3, 8]))          # a bystander that moves the pointer
+            g.setenc(j, [RAW])
+            base = [TIGHT] if cap == LASTRECT else [rng.choice([RAW, HEXTILE, ZRLE, TIGHT, CORRE])]
+            helper = {POINTERPOS: [RICHCURSOR], EXTDESKTOPSIZE: [], NEWFBSIZE: []}.get(cap, [])
+            # what stays advertised after the drop (sibling capabilities must not be confused)
+            keep = {EXTDESKTOPSIZE: [NEWFBSIZE], NEWFBSIZE: [], RICHCURSOR: [XCURSOR], XCURSOR: [RICHCURSOR],
+                    POINTERPOS: [RICHCURSOR]}.get(cap, [])
+
+            def provoke():
+                if cap == COPYRECT:
+                    g.op("copy 10 10 20 15 5 3")
+                elif cap in (XCURSOR, RICHCURSOR):
+                    g.op("cursor 16 16 3 4 %d %d" % (variant, rng.randint(1, 10 ** 6)))
+                elif cap == POINTERPOS:
+                    g.op("ptr %d 0 %d %d" % (j, rng.randint(0, 30), rng.randint(0, 20)))
+                elif cap == LASTRECT:
+                    g.draw(0, 0, 20, 40, mode=0)
+                    g.draw(20, 0, 44, 40, mode=3)
+                elif cap in (NEWFBSIZE, EXTDESKTOPSIZE):
+                    g.resize(*rng.choice([(97, 97), (64, 48), (200, 150)]))
+                elif cap == LED:
+                    g.op("led %d" % rng.randint(1, 7))
+                g.draw(1, 1, 9, 9)
+                g.req(i, 0 if cap == EXTDESKTOPSIZE and variant else 1)
+                g.req(i, 1)
+
+            first = base + helper + [cap]
+            rng.shuffle(first)
+            g.setenc(i, first)
+            g.req(i, 0)
+            if variant == 0 or cap in (SUPMSGS, SUPENCS, IDENTITY, XVP):
+                provoke()                             # use it while advertised
+            if cap == COPYRECT and variant == 1:
+                g.op("copy 30 20 20 15 -7 2")         # scheduled while advertised, still pending at the drop
+            if cap in (SUPMSGS, SUPENCS, IDENTITY) and variant == 1:
+                g.setenc(i, first)                    # one-shot armed again, then dropped before any update
+            second = base + keep + ([LASTRECT] if cap != LASTRECT and variant else [])
+            rng.shuffle(second)
+            g.setenc(i, second)                       # ... without `cap`
+            provoke()
+            provoke()
+            out.append((g.text(), {"det-dropcap", "cap:%d" % cap}, "det_dropcap"))
+    return out
+
+
 GENS = [(gen_session, 0.34), (gen_boundary, 0.26), (gen_multirect, 0.18), (gen_scaled, 0.08),
         (gen_resize, 0.08), (gen_handshake, 0.06)]
 
@@ -629,6 +744,31 @@ def softcursor_pred(ops, line):
     return (not has_shape) and x + w <= max(aw, max_r) and y + h <= max(ah, max_b)
 
 
+RE_COPY = re.compile(r"!ORACLE (\d+) rect \d+: encoding copy was never advertised by the client .*\[op (\d+)\]")
+
+
+def copydrop_pred(ops, line):
+    """finding c03-copyrect-after-drop: a CopyRect rectangle for a client whose current list lacks
+    CopyRect, where a copy was scheduled while an earlier list of that client had CopyRect"""
+    m = RE_COPY.match(line)
+    if not m:
+        return False
+    c, opn = int(m.group(1)), int(m.group(2))
+    has, scheduled_while_has, dropped_after = False, False, False
+    for l in ops[:opn + 1]:
+        t = l.split()
+        if t[0] == "setenc" and int(t[1]) == c:
+            now = COPYRECT in [int(v) for v in t[2:]]
+            if has and not now and scheduled_while_has:
+                dropped_after = True
+            if now:
+                dropped_after = False
+            has = now
+        elif t[0] in ("copy", "copychk") and has:
+            scheduled_while_has = True
+    return dropped_after and not has
+
+
 def classify_finding(script, impl, fail):
     """precise predicates on the failing input for defects of the unchanged tree (docs/C03.md)"""
     ops = script_ops(script)
@@ -648,6 +788,8 @@ def classify_finding(script, impl, fail):
     if fail["kind"] == "oracle" and lines:
         if all(softcursor_pred(ops, l) for l in lines):
             return "c03-softcursor-outside-announced"
+        if all(copydrop_pred(ops, l) for l in lines):
+            return "c03-copyrect-after-drop"
         # defects with a proposed fix (fixes/C03-*.diff); not suppressed, only labelled
         m = RE_HS.match(lines[0])
         if m and int(m.group(3)) < len(ops) and ops[int(m.group(3))].split()[0] in ("bell", "scut", "scututf8") \
@@ -697,7 +839,8 @@ def run(ctx):
     else:
         for p in sorted(glob.glob(os.path.join(common.VERIF, "corpus", "C03", "*.ops"))):
             cases.append((open(p).read(), {"corpus"}, "corpus:" + os.path.basename(p)))
-        n = 260 if ctx.tier == "quick" else 3000
+        cases += det_tight_boundary(ctx.rng) + det_dropcap(ctx.rng)
+        n = 200 if ctx.tier == "quick" else 3000
         for _ in range(n):
             f = pick_gen(ctx.rng)
             s, tags = f(ctx.rng)
